@@ -146,6 +146,8 @@ def family_core():
     add("zero:staterror-unc", [channel("ch", sample("sig", 2, normfactor()), sample("bkg", 2, staterror("e", 2, zero=(0,))))])
     add("zero:yield-staterror-shared", [channel("ch", sample("sig", 2, normfactor()), sample("b1", 2, staterror("st", 2), zero=(0,)),
                                                  sample("b2", 2, staterror("st", 2), normsys("k")))])
+    add("zero:staterror-unc-shared", [channel("ch", sample("sig", 2, normfactor()), sample("b1", 2, staterror("st", 2, zero=(0,))),
+                                               sample("b2", 2, staterror("st", 2), normsys("k")))])
     add("zero:yield-histosys-normsys", [channel("ch", sample("sig", 2, normfactor(), zero=(1,)), sample("bkg", 3 - 1, histosys("h", 2), normsys("k"), zero=(0,)),
                                                  sample("b2", 2, histosys("h", 2), staterror("st", 2)))])
     add("zero:yield-shapesys", [channel("ch", sample("sig", 2, normfactor()), sample("bkg", 2, shapesys("u", 2), zero=(0,)))])
@@ -166,6 +168,10 @@ def family_core():
         [{"name": "st", "sigmas": ["$p", "$p"], "auxdata": ["$p", "$p"]}, {"name": "h", "auxdata": ["$x"], "inits": [0.5], "bounds": [[-2.0, 2.0]]}])
     add("override:shapesys", [channel("ch", sample("sig", 2, normfactor()), sample("bkg", 2, shapesys("u", 2), normsys("k")))],
         [{"name": "u", "factors": ["$p", "$p"], "auxdata": ["$p", "$p"]}, {"name": "mu", "inits": [2.0], "bounds": [[0.0, 5.0]], "fixed": True}])
+    # Gaussian-constrained sets that the measurement holds constant (their widths stay the configured ones)
+    add("fixed:lumi", [channel("ch", sample("sig", 2, normfactor(), lumi()), sample("bkg", 2, lumi(), normsys("k")))], [dict(LUMICFG, fixed=True)])
+    add("fixed:staterror", [channel("ch", sample("sig", 2, normfactor()), sample("bkg", 2, staterror("st", 2), normsys("k")))],
+        [{"name": "st", "fixed": True}, {"name": "k", "fixed": True}])
     # rich model
     add("rich", [channel("SR", sample("sig", 2, normfactor(), normsys("jes")),
                           sample("bkg", 2, histosys("jes", 2), normsys("xs"), staterror("st", 2)),
